@@ -485,4 +485,84 @@ theorem run_sources (srcs : List Nat) (s : St) (hs : s.sources = srcs.map (·, s
 
 end NullOut
 
+/-! ## mrt-file-in -/
+namespace Mrt
+
+theorem filter_not_contains_self (l : List Nat) : l.filter (fun f => !l.contains f) = [] := by
+  apply List.filter_eq_nil_iff.mpr
+  intro a ha
+  simp [ha]
+
+/-- what the endpoint does with the requests of a history when its directory never changes -/
+def frozen (d : Option Nat) : List Ev → List (Option Nat × Nat)
+  | [] => []
+  | .api n :: es => (match d with | none => [] | some d => [(some d, n)]) ++ frozen d es
+  | .reload _ :: es => frozen d es
+
+theorem run_asWritten (v : Variant) (hv : v.mrt = .asWritten) (s : St) (es : List Ev) :
+    (run v s es).processed = s.processed ++ frozen s.apidir es := by
+  induction es generalizing s with
+  | nil => simp [run, frozen]
+  | cons e es ih =>
+    cases e with
+    | api n =>
+      cases hd : s.apidir with
+      | none => simpa [run, step, hd, frozen] using ih s
+      | some d =>
+        have := ih { s with processed := s.processed ++ [(some d, n)] }
+        simpa [run, step, hd, frozen] using this
+    | reload c => simpa [run, step, hv, frozen] using ih s
+
+theorem run_repaired (v : Variant) (hv : v.mrt = .repaired) (s : St) (hs : s.apidir = s.cfg.updir) (es : List Ev) :
+    (run v s es).processed = s.processed ++ spec s.cfg es := by
+  induction es generalizing s with
+  | nil => simp [run, spec]
+  | cons e es ih =>
+    cases e with
+    | api n =>
+      cases hd : s.cfg.updir with
+      | none =>
+        have := ih s hs
+        simpa [run, step, hs, hd, spec] using this
+      | some d =>
+        have := ih { s with processed := s.processed ++ [(some d, n)] } hs
+        simpa [run, step, hs, hd, spec] using this
+    | reload c =>
+      have := ih { cfg := c, apidir := c.updir,
+                   processed := s.processed ++ (c.files.filter (fun f => !s.cfg.files.contains f)).map (none, ·) } rfl
+      simpa [run, step, hv, spec] using this
+
+/-- a history whose reloads all carry the configuration `c` -/
+def onlyIdentical (c : Cfg) : List Ev → Prop
+  | [] => True
+  | .reload c' :: es => c' = c ∧ onlyIdentical c es
+  | _ :: es => onlyIdentical c es
+
+theorem spec_eq_frozen (c : Cfg) (es : List Ev) (h : onlyIdentical c es) : spec c es = frozen c.updir es := by
+  induction es with
+  | nil => rfl
+  | cons e es ih =>
+    cases e with
+    | api n =>
+      have := ih h
+      cases hd : c.updir <;> simp_all [spec, frozen]
+    | reload c' =>
+      obtain ⟨rfl, h'⟩ := h
+      simp [spec, frozen, ih h']
+
+theorem step_processed_prefix (v : Variant) (s : St) (e : Ev) : s.processed <+: (step v s e).1.processed := by
+  cases e with
+  | api n =>
+    simp only [step]
+    split
+    · exact List.prefix_refl _
+    · exact List.prefix_append _ _
+  | reload c =>
+    simp only [step]
+    split
+    · exact List.prefix_refl _
+    · exact List.prefix_append _ _
+
+end Mrt
+
 end Rotonda.ReconfUnits
